@@ -831,18 +831,24 @@ fn sub_lists(tier: Tier) -> Sub {
     let maxlen = if mcx::deep() { 4 } else { tier.pick(2u32, 3) };
     let nseq = mcx::space::seq_count(7, 1, maxlen);
     let encs = Enc::all16();
-    let len = nseq * 16 * 2 * 2;
+    let len = nseq * 16 * 2 * 2 * 3;
     Sub::new(
         &format!("lists-seq-len<={}", maxlen),
         len,
-        "every sequence of 1..=L list entries over {BaseAddress(symbol), BaseAddress(constant), OffsetPair, StartEnd(symbols), StartEnd(constants), StartLength(symbol), StartLength(constant)} as a range list and as a location list (expressions: DW_OP_addr(symbol) / DW_OP_call_ref) x 16 encodings x endian, referenced from a DIE next to a second, constant list; sequences gimli rejects (offset pair without base before v5, ...) are counted and skipped; every relocation perturbed",
+        "every sequence of 1..=L list entries over {BaseAddress(symbol), BaseAddress(constant), OffsetPair, StartEnd(symbols), StartEnd(constants), StartLength(symbol), StartLength(constant)} as a range list and as a location list (expressions: DW_OP_addr(symbol) / DW_OP_call_ref) x 16 encodings x endian x root DW_AT_low_pc {absent, constant, symbol} (the unit base address that lets offset pairs stand without a base entry before v5), referenced from a DIE next to a second, constant list; sequences gimli rejects (offset pair without base before v5, ...) are counted and skipped; every relocation perturbed",
         move |ctx, idx| {
             let mut mx = Mix(idx);
             let enc = *mx.pick(&encs);
             let as_loc = mx.flag();
             let endian = if mx.flag() { RunTimeEndian::Big } else { RunTimeEndian::Little };
+            let root_low = mx.take(3);
             let seq = mcx::space::seq_decode(7, 1, maxlen, mx.0);
             let mut u = MUnit::from_forest(0, enc, &[usize::MAX, usize::MAX], |i| super::tag_for(1, i));
+            match root_low {
+                1 => u.entries[0].attrs.push((AT_LOW_PC, MV::Addr(MAddr::C(0x5000)))),
+                2 => u.entries[0].attrs.push((AT_LOW_PC, MV::Addr(sym_of(1)))),
+                _ => {}
+            }
             let x = |k: usize| -> Vec<MOp> {
                 if k % 2 == 0 {
                     vec![MOp::Addr(sym_of(k))]
